@@ -49,6 +49,8 @@ STEP_RESET_FIELDS = ["*.status", "*.hook_failed", "*.duration", "*.exception", "
 contract(M + "copy_and_reset_steps", props=P, params={"steps": "seq:ref:Step"}, result="seq:ref:Step",
          modifies=STEP_RESET_FIELDS,
          ensures={"new-untested-copies-in-the-same-order": FRESH_COPIES % {"src": "steps"},
+                  "no-existing-step-is-touched":
+                      "forall(lambda r: implies(existed(r), field_of(r, 'status', 'Step') == old(field_of(r, 'status', 'Step'))))",
                   "only-the-new-copies-are-reset": " and ".join(
                       "unchanged_outside('%s', result)" % f_ for f_ in
                       ("status", "hook_failed", "duration", "exception", "exc_traceback", "error_message", "captured"))})
@@ -73,6 +75,8 @@ contract(M + "Scenario.background_steps", props=P, params={"self": "ref:Scenario
                  + COPIES_OF_BG + ")",
              "no-background-no-steps":
                  "implies(is_none(old(self._background_steps)) and not (truthy(self.background) and self._use_background), len(result) == 0)",
+             "no-existing-step-is-touched":
+                 "forall(lambda r: implies(existed(r), field_of(r, 'status', 'Step') == old(field_of(r, 'status', 'Step'))))",
          })
 
 IB = "as_ref(self.inherited_background, 'Background')"
@@ -86,6 +90,7 @@ contract(M + "Background.inherited_steps", props=P, params={"self": "ref:Backgro
                  + (FRESH_COPIES % {"src": "%s.steps" % IB}) + ")",
              "nothing-inherited": "implies(is_none(old(self._inherited_steps)) and not (truthy(self.inherited_background) and "
                                   "self._use_inheritance), len(result) == 0)",
+             "no-existing-step-is-touched": "forall(lambda r: implies(existed(r), field_of(r, 'status', 'Step') == old(field_of(r, 'status', 'Step'))))",
          })
 contract(M + "Background.iter_steps", props=P, params={"self": "ref:Background"}, self_classes=["Background"],
          result="seq:ref:Step", modifies=STEP_RESET_FIELDS + ["self._inherited_steps"],
@@ -93,7 +98,8 @@ contract(M + "Background.iter_steps", props=P, params={"self": "ref:Background"}
                   "len(result) == len(self._inherited_steps) + len(self.steps) and "
                   "forall(lambda k: implies(0 <= k < len(self._inherited_steps), result[k] is self._inherited_steps[k])) and "
                   "forall(lambda k: implies(0 <= k < len(self.steps), result[len(self._inherited_steps) + k] is self.steps[k]))",
-                  "inherited-list-initialised": "not is_none(self._inherited_steps)"})
+                  "inherited-list-initialised": "not is_none(self._inherited_steps)",
+                  "no-existing-step-is-touched": "forall(lambda r: implies(existed(r), field_of(r, 'status', 'Step') == old(field_of(r, 'status', 'Step'))))"})
 contract(M + "Scenario.iter_steps", props=P, params={"self": "ref:Scenario"}, self_classes=["Scenario"],
          result="seq:ref:Step", modifies=STEP_RESET_FIELDS + ["self._background_steps", "*._inherited_steps"],
          ensures={"background-steps-first-then-own-steps":
@@ -103,12 +109,40 @@ contract(M + "Scenario.iter_steps", props=P, params={"self": "ref:Scenario"}, se
                   "forall(lambda k: implies(0 <= k < len(self.steps), result[len(self._background_steps) + k] is self.steps[k])))",
                   "own-steps-only-without-background":
                   "implies(is_none(self.background), len(result) == len(self.steps) and "
-                  "forall(lambda k: implies(0 <= k < len(self.steps), result[k] is self.steps[k])))"})
+                  "forall(lambda k: implies(0 <= k < len(self.steps), result[k] is self.steps[k])))",
+                  "no-existing-step-is-touched": "forall(lambda r: implies(existed(r), field_of(r, 'status', 'Step') == old(field_of(r, 'status', 'Step'))))"})
 
 ALLB_ENS = {"inherited-steps-first-then-own-steps":
             "len(result) == len(self._inherited_steps) + len(self.steps) and "
             "forall(lambda k: implies(0 <= k < len(self._inherited_steps), result[k] is self._inherited_steps[k])) and "
             "forall(lambda k: implies(0 <= k < len(self.steps), result[len(self._inherited_steps) + k] is self.steps[k]))",
-            "inherited-list-initialised": "not is_none(self._inherited_steps)"}
+            "inherited-list-initialised": "not is_none(self._inherited_steps)",
+            "no-existing-step-is-touched": "forall(lambda r: implies(existed(r), field_of(r, 'status', 'Step') == old(field_of(r, 'status', 'Step'))))"}
 contract(M + "Background.all_steps", props=P, params={"self": "ref:Background"}, self_classes=["Background"],
          result="seq:ref:Step", modifies=STEP_RESET_FIELDS + ["self._inherited_steps"], ensures=ALLB_ENS)
+
+# -- skipping a scenario: every step that was not executed (background steps included) is left skipped ----------------
+contract("abs:TagAndStatusStatement.clear_status", trusted=True, params={"self": "ref:TagAndStatusStatement"}, pos_params=["self"],
+         modifies=["self._cached_status"], doc="forget the cached roll-up status")
+contract("abs:TagAndStatusStatement.set_status", trusted=True, params={"self": "ref:TagAndStatusStatement"},
+         pos_params=["self", "value"], modifies=["self._cached_status"], doc="store a roll-up status")
+ALLS = "as_list(all_steps_of(self), 'ref:Step')"
+contract(M + "Scenario.skip", props=P + ["C09"], params={"self": "ref:Scenario", "reason": "opt:str", "require_not_executed": "bool"},
+         self_classes=["Scenario"], assert_raises=True, allow_raises=["AssertionError"],
+         callsites={"self.all_steps": "abs:Scenario.all_steps"},
+         modifies=["self._cached_status", "self.should_skip", "self.skip_reason", "*.status",
+                   "*._background_steps", "*._inherited_steps", "*.hook_failed", "*.duration", "*.exception", "*.exc_traceback",
+                   "*.error_message", "*.captured"],
+         assume={"steps-of-a-scenario-are-distinct-objects":
+                 "forall(lambda k: implies(0 <= k < len(%s), step_rank(%s[k]) == k and typeof_is(%s[k], 'Step')))" % (ALLS, ALLS, ALLS),
+                 "the-step-list-is-part-of-the-model-at-entry": "preexisting(all_steps_of(self))"},
+         loops=[Loop(invariant={
+             "not-executed-steps-so-far-are-skipped":
+                 "forall(lambda k: implies(0 <= k < _i, %(a)s[k].status == (Status.skipped if old(%(a)s[k].status) in "
+                 "(Status.untested, Status.skipped) else old(%(a)s[k].status))))" % {"a": ALLS},
+             "later-steps-untouched": "forall(lambda k: implies(_i <= k < len(%(a)s), %(a)s[k].status == old(%(a)s[k].status)))" % {"a": ALLS},
+             "same": "_seq is all_steps_of(self)"})],
+         ensures={"marked": "self.should_skip == True",
+                  "every-not-executed-step-including-background-steps-is-skipped":
+                      "forall(lambda k: implies(0 <= k < len(%s), %s[k].status == (Status.skipped if old(%s[k].status) in "
+                      "(Status.untested, Status.skipped) else old(%s[k].status))))" % (ALLS, ALLS, ALLS, ALLS)})
